@@ -88,7 +88,8 @@ class Tracking(RefInt):
 def plan(tier, seed):
     n, per = (16, 10) if tier == 'quick' else (48, 50)
     return [{'kind': 'gen', 'seed': s, 'count': per, 'hashseeds': ['0', '1', '2', '3', str(10 + s % 97), str(1000 + s)]}
-            for s in common.shard_seeds(seed, n)] + [{'kind': 'lint', 'part': i, 'parts': 2} for i in range(2)]
+            for s in common.shard_seeds(seed, n)] + [{'kind': 'lint', 'part': i, 'parts': 2} for i in range(2)] + \
+           [{'kind': 'cli', 'part': i, 'parts': 4} for i in range(4)]
 
 
 def lint_grid():
@@ -136,6 +137,52 @@ def digest(lines):
 def run_shard(spec):
     res = runner.new_result()
     CompilerError, _ = env.compiler_error_types()
+    if spec.get('kind') == 'cli':
+        # the command-line tool is one more process: `python -m hidc -m W -s S [--unchecked]` must write exactly the bytes the
+        # library produces for word size W/8, stack size S - for every S, including 0 and 1
+        scratch = os.environ.get('HIDVERIF_SCRATCH') or os.path.join(env.VERIF, '.scratch')
+        d = os.path.join(scratch, f'c18cli-{os.getpid()}')
+        os.makedirs(d, exist_ok=True)
+        srcs = ['empty @is_you() { writeln("hi"); }\n',
+                'int g = 3;\nint f(int n) { int[] t = [n, g]; if (n > 0) { return f(n - 1) + t[0]; } return t[1]; }\nempty @is_you(int n) { writeln(f(n)); }\n']
+        n = 0
+        for si, src in enumerate(srcs):
+            inp = os.path.join(d, f'in{si}.hid')
+            with open(inp, 'w') as f:
+                f.write(src)
+            for m in (16, 24, 32, 64):
+                for sz in (0, 1, 2, 7, 500, 16000):
+                    for unchecked in (False, True):
+                        n += 1
+                        if n % spec['parts'] != spec['part']:
+                            continue
+                        res['evaluations'] += 1
+                        out = os.path.join(d, 'out.s')
+                        if os.path.exists(out):
+                            os.remove(out)
+                        opts = ['-m', str(m), '-s', str(sz)] + (['--unchecked'] if unchecked else [])
+                        case = {'source': src, 'options': opts, 'what': 'CLI vs library'}
+                        e = dict(os.environ, PYTHONPATH=env.REPO)
+                        p = subprocess.run([sys.executable, '-m', 'hidc', inp, '-o', out] + opts, env=e, capture_output=True, timeout=120)
+                        try:
+                            lib = b'\n'.join(env.compile_src(src, word=m // 8, stack=sz, unchecked=unchecked))
+                        except CompilerError as ex:
+                            lib = None
+                        if p.returncode != 0 or not os.path.exists(out):
+                            if lib is not None:
+                                runner.fail(res, 'M-REPRO', f'python -m hidc {" ".join(opts)} fails (exit {p.returncode}: {p.stderr.decode("utf-8", "replace")[-120:]!r}) although the library compiles the program', case)
+                            else:
+                                runner.count(res, 'cli_and_library_reject')
+                            continue
+                        with open(out, 'rb') as f:
+                            got = f.read()
+                        if lib is None or got.rstrip(b'\n') != lib.rstrip(b'\n'):
+                            runner.fail(res, 'M-REPRO', f'python -m hidc {" ".join(opts)} writes different assembly than the library with word={m // 8}, stack={sz}, unchecked={unchecked}', case)
+                        else:
+                            runner.count(res, 'cli_equals_library')
+                            res['nontrivial'].append(runner.case_id('cli', si, m, sz, unchecked))
+        res['exhaustive'] = True
+        return res
     if spec.get('kind') == 'lint':
         for k, (tag, src) in enumerate(lint_grid()):
             if k % spec['parts'] != spec['part']:
